@@ -87,7 +87,7 @@ var gateDefs = []gateDef{
 	{name: "c19_first", nbIn: 2, degree: 1,
 		ref:  func(p *big.Int, x []*big.Int) *big.Int { return new(big.Int).Set(x[0]) },
 		fe:   func(api gkr.GateAPI, x ...frontend.Variable) frontend.Variable { return x[0] },
-		opts: []gkr.RegisterGateOption{gkr.WithDegree(1), gkr.WithUnverifiedSolvableVar(0)}},
+		opts: []gkr.RegisterGateOption{gkr.WithDegree(1), gkr.WithSolvableVar(0)}},
 	// x^2 * y
 	{name: "c19_x2y", nbIn: 2, degree: 3,
 		ref: func(p *big.Int, x []*big.Int) *big.Int {
@@ -95,7 +95,7 @@ var gateDefs = []gateDef{
 			return mod(p, t.Mul(t, x[1]))
 		},
 		fe:   func(api gkr.GateAPI, x ...frontend.Variable) frontend.Variable { return api.Mul(x[0], x[0], x[1]) },
-		opts: []gkr.RegisterGateOption{gkr.WithDegree(3), gkr.WithSolvableVar(1)}},
+		opts: []gkr.RegisterGateOption{gkr.WithDegree(3), gkr.WithNoSolvableVar()}},
 }
 
 var gateByName = func() map[string]*gateDef {
